@@ -11,7 +11,7 @@ RULE = (
     "positions), 1-4 declared fields, IsUnique key sets of 1-3 fields, DistinctCount with each of < <= == != >= > and "
     "thresholds 0-4 (a quarter of them with one or two more comparisons of the field joined by and / or), both declaration orders of the two checks, the three error modes, interleaved rows rejected for a "
     "field error or a wrong item count; thorough additionally enumerates all sequences of up to 5 rows over 5 row kinds. "
-    "Every third case creates the readers of its three runs (one per error mode) up front on one CID and reads them one after the other. Observed through cutplace.Reader (rows, close, error.location, see_also_location) and compared with M-checks. A "
+    "Every third case creates the readers of its three runs (one per error mode) up front on one CID and reads them one after the other. Observed through cutplace.Reader (rows, close, error.location, see_also_location; every second raise-mode run through cutplace.rows instead) and compared with M-checks. A "
     "case is (check configuration, row sequence, mode), distinct by digest, non-trivial when a duplicate key occurs or "
     "the distinct count is within 1 of the threshold."
 )
@@ -95,10 +95,11 @@ def readers_up_front(model, rows):
     return cid, {mode: validio.Reader(cid, io.StringIO(storage.delimited_text(rows), newline=""), on_error=mode) for mode in MODES}
 
 
-def check_case(ctx, model, rows, mode, up_front=None):
+def check_case(ctx, model, rows, mode, up_front=None, through_rows=False):
     from cutplace import errors
 
-    case = {"cid": model.to_json(), "rows": rows, "mode": mode, "readers_created_up_front": up_front is not None}
+    through_rows = through_rows and mode == "raise" and up_front is None
+    case = {"cid": model.to_json(), "rows": rows, "mode": mode, "readers_created_up_front": up_front is not None, "through_cutplace_rows": through_rows}
     expected = RM.expected_run(model, rows)
     strict = False
     if expected is None:
@@ -122,7 +123,15 @@ def check_case(ctx, model, rows, mode, up_front=None):
     try:
         if up_front is not None:
             ctx.count("runs.reader-created-before-other-runs-on-the-cid")
-        obs = gen.read_with_reader(cid, source, mode=mode, reader=up_front[1][mode] if up_front is not None else None)
+        if through_rows:
+            # cutplace.rows() closes its reader itself: the error that ends the iteration is the row's error, or - when
+            # no row was rejected - the end-of-data verdict
+            obs = gen.read_with_rows(cid, source, mode=mode)
+            ctx.count("runs.through-cutplace.rows")
+            if not any(e[0] == "error" for e in expected["items"]):
+                obs.end_error, obs.raised = obs.raised, None
+        else:
+            obs = gen.read_with_reader(cid, source, mode=mode, reader=up_front[1][mode] if up_front is not None else None)
     except Exception as error:
         ctx.case(case, True)
         ctx.violation("C05:crash:%s" % type(error).__name__, case, "reader failed with an internal error", observed=error)
@@ -143,14 +152,15 @@ def check_case(ctx, model, rows, mode, up_front=None):
                 ctx.violation("C05:error-changed-after-reading-on", case, "a reported error no longer names its row and the row of the first occurrence after the reader moved on",
                               expected=item[2], observed=now)
                 return
+    skip_end = through_rows and any(e[0] == "error" for e in expected["items"])  # (the verdict at the end is not handed out then)
     first = Collector(ctx, True)
-    compare(first, errors, case, model, obs, expected, mode)
+    compare(first, errors, case, model, obs, expected, mode, skip_end)
     if first.violations and strict:
         second = Collector(ctx, False)
         sticky = RM.expected_run(model, rows, sticky=True)
         sticky_aborted = RM.expected_run(model, rows, sticky=True, stop_at_first_rejection=True)
         sticky["end_after_abort"] = sticky_aborted["state"].end_verdict()
-        compare(second, errors, case, model, obs, sticky, mode)
+        compare(second, errors, case, model, obs, sticky, mode, skip_end)
         if not second.violations:
             ctx.violation("C05:isunique:duplicate-of-rejected-row", case, "a row was rejected as duplicate of a row that a later-declared check had rejected (its key stays registered)",
                           expected=first.violations[0][3], observed=first.violations[0][4])
@@ -159,7 +169,7 @@ def check_case(ctx, model, rows, mode, up_front=None):
         ctx.violation(v[0], v[1], v[2], expected=v[3], observed=v[4])
 
 
-def compare(ctx, errors, case, model, obs, expected, mode):
+def compare(ctx, errors, case, model, obs, expected, mode, skip_end=False):
     exp_items = expected["items"]
     if mode == "continue":
         exp_items = [e for e in exp_items if e[0] == "row"]
@@ -211,6 +221,8 @@ def compare(ctx, errors, case, model, obs, expected, mode):
         elif isinstance(g[1], errors.CheckError):
             ctx.violation("C05:field-error-as-check-error", case, "row rejected for a cell was reported by a check", observed=snap)
             return
+    if skip_end:
+        return
     # end-of-data verdict (complete passes only)
     if mode == "raise" and exp_err is not None:
         # a run aborted at its first rejection: closing it judges the rows that reached the checks until then
@@ -244,7 +256,7 @@ def run(ctx):
             except Exception:
                 up_front = None  # a refused CID is reported by check_case
         for mode in MODES:
-            check_case(ctx, model, rows, mode, up_front)
+            check_case(ctx, model, rows, mode, up_front, through_rows=(i % 2 == 1))
     if ctx.tier == "thorough":
         kinds = [["a", "a"], ["a", "b"], ["b", "a"], ["b", "b"], ["a", "BAD"]]
         fields = [{"name": "k0", "type": "Choice", "empty": False, "length": "", "rule": "a, b"},
@@ -273,4 +285,4 @@ def replay(ctx, case):
         for mode in MODES:
             check_case(ctx, model, case["rows"], mode, up_front)
         return
-    check_case(ctx, model, case["rows"], case["mode"])
+    check_case(ctx, model, case["rows"], case["mode"], through_rows=case.get("through_cutplace_rows", False))
